@@ -326,7 +326,7 @@ func runC09(c *Ctx, idx int, o *Obs) {
 	}
 
 	// rejection clauses
-	for _, bad := range []float64{0.49, 0, -1, 1.01, 2} {
+	for _, bad := range []float64{0.49, 0, -1, 1.01, 2, math.Nextafter(0.5, 0), 0.4999999999, math.Nextafter(1, 2), 1.0000000001} {
 		_, err := tree.Consensus(treesChan(texts), bad)
 		o.Check(err != nil, "consensus_cutoff_accepted", fmt.Sprintf("cutoff %v accepted", bad), inp)
 	}
